@@ -206,8 +206,8 @@ def r6(ctx):
             if cr and l is not None and l in forward_locals(lib.body(cr[0].path), cr[2]['p'][0]):
                 kb = lib.body(cp)
                 rs = backslice(kb, [0])
-                keyed = 'path' in rs.field_names() and rs.has_call(r'path::Path::hash128$') and not (rs.field_names() & {'id', 'len', 'location'})
-        ctx.check(keyed, rule, b.path + '|keyed-by-path', ub[0].where(), 'uniqueness key = hash of the path', 'the uniqueness key is not the path (distinct paths could be merged or repeats kept)')
+                keyed = 'path' in rs.field_names() and not (rs.field_names() & {'id', 'len', 'location', 'file_hash'})
+        ctx.check(keyed, rule, b.path + '|keyed-by-path', ub[0].where(), 'uniqueness key = the path (or its hash)', 'the uniqueness key is not the path (distinct paths could be merged or repeats kept)')
     # all buckets are re-emitted: both arms extend `files`
     ext = b.calls(r'Extend.*>::extend$|Vec<.*>::extend$|::extend$')
     ctx.check(len(ext) >= 2 or (len(ext) == 1), rule, b.path + '|re-emitted', b.where(), 'every bucket is written back (%d extend sites)' % len(ext), 'buckets are not written back')
